@@ -26,6 +26,8 @@ type Scenario struct {
 	Tail     int       `json:"tail"` // healthy calls per caller after the faults have stopped
 	HashSalt uint64    `json:"hash_salt"`
 	Listener bool      `json:"listener"` // install a health feedback listener
+	// Resolves: part of the calls are region-wide ResolveLock requests sent through the collapsing client wrapper
+	Resolves bool `json:"resolves,omitempty"`
 }
 
 // ClientCfg is the part of config.TiKVClient the run sets.
@@ -46,13 +48,16 @@ type Caller struct {
 
 // Call is one SendRequest / SendRequestAsync.
 type Call struct {
-	Store     int    `json:"store"`
-	Fwd       int    `json:"fwd"` // 0: direct, k>0: forwarded host k-1
-	Pri       uint64 `json:"pri"`
-	Kind      string `json:"kind"` // get | batchget | rawget
-	Async     bool   `json:"async,omitempty"`
-	TimeoutMs int    `json:"timeout_ms"` // 0 (async only): no deadline at all
-	CancelUs  int    `json:"cancel_us,omitempty"`
+	Store int    `json:"store"`
+	Fwd   int    `json:"fwd"` // 0: direct, k>0: forwarded host k-1
+	Pri   uint64 `json:"pri"`
+	Kind  string `json:"kind"` // get | batchget | rawget | resolve
+	// Grp (kind resolve): a region-wide ResolveLock of transaction Grp in the region of the store - calls of one group
+	// that overlap in time are collapsed by the client (client_collapse.go) into one request on the wire
+	Grp       int  `json:"grp,omitempty"`
+	Async     bool `json:"async,omitempty"`
+	TimeoutMs int  `json:"timeout_ms"` // 0 (async only): no deadline at all
+	CancelUs  int  `json:"cancel_us,omitempty"`
 	// CtxExtraMs > 0 (synchronous calls): the caller's context carries a deadline this much LATER than the call's own
 	// time-out, as the contexts of statements with a max execution time do; the call is still bounded by its time-out
 	CtxExtraMs int `json:"ctx_extra_ms,omitempty"`
@@ -129,6 +134,7 @@ func generate(cfg simkit.RunConfig) *Scenario {
 		sc.Cfg.ConcLimit = pick[int64](r, 1, 2, 4, 8)
 	}
 	nCallers := pick(r, 2, 2, 3, 3, 4, 4, 6, 8, 12, 16, 24, 32)
+	sc.Resolves = mode != "spin" && simkit.Rand(cfg.Seed, "resolves").Intn(3) == 0
 	maxCalls := 6
 	if nCallers > 12 {
 		maxCalls = 3
@@ -184,6 +190,9 @@ func generate(cfg simkit.RunConfig) *Scenario {
 			if sc.FwdHosts > 0 && r.Intn(100) < 30 {
 				call.Fwd = 1 + r.Intn(sc.FwdHosts)
 			}
+			if sc.Resolves && r.Intn(100) < 45 {
+				call.Kind, call.Fwd, call.Grp = "resolve", 0, r.Intn(2)
+			}
 			switch x := r.Intn(100); {
 			case x < 60:
 			case x < 85:
@@ -203,7 +212,7 @@ func generate(cfg simkit.RunConfig) *Scenario {
 			if !fault {
 				call.TimeoutMs = 2000 + r.Intn(3000)
 			}
-			if mode == "nodeadline" && call.Async && r.Intn(100) < 70 {
+			if mode == "nodeadline" && call.Async && r.Intn(100) < 70 && call.Kind != "resolve" {
 				call.TimeoutMs = 0
 			}
 			if fault && !call.Async && call.TimeoutMs > 0 && r.Intn(100) < 15 {
